@@ -33,6 +33,8 @@ DESCRIPTORS = [
     # serial tags with an underscore (how Windows shows a blank in the nickname)
     ("COM8", "USB Serial Device (COM8)", VIDPID + " SER=LAB_WEST LOCATION=1-7"),
     ("COM9", "USB Serial Device (COM9)", VIDPID + " SNR=PEN_LAB_2"),
+    # a serial tag that ends the hardware id (pyserial appends LOCATION= only when it knows it)
+    ("COM10", "USB Serial Device (COM10)", VIDPID + " SER=AxiOne"),
 ]
 
 
@@ -266,13 +268,15 @@ def name_alphabet_lists():
             out.append(("descr", name))
             out.append(("ser", name))
             out.append(("snr", name))
+            out.append(("ser_end", name))
     return out
 
 
 def named_ports(style, name):
     board = {"descr": ("/dev/cu.usbmodem31", "EiBotBoard," + name, VIDPID + " LOCATION=20-9"),
              "ser": ("COM31", "USB Serial Device (COM31)", VIDPID + " SER=" + name + " LOCATION=1-9"),
-             "snr": ("COM32", "USB Serial Device (COM32)", VIDPID + " SNR=" + name)}[style]
+             "snr": ("COM32", "USB Serial Device (COM32)", VIDPID + " SNR=" + name),
+             "ser_end": ("COM33", "USB Serial Device (COM33)", VIDPID + " SER=" + name)}[style]
     return [DESCRIPTORS[6], DESCRIPTORS[1], board]     # a foreign device, an unnamed EBB, the board
 
 
